@@ -262,6 +262,23 @@ def c05(tier):
     for sc in rl.small_trees():
         rl.planned_runs(binary, sc, [[("edit", "op=rename,nth=1:errno=5")], [("edit", "op=rename,nth=0:errno=18")]], batch, v)
     batch.judge(v, {"C05"})
+    # (d) statement level: what precedes the statement on its line (multi-byte text, tabs), CRLF and multi-line layouts,
+    #     targets and key-values: every reported (line, column) must be where the following edit inserts
+    import checks_stmt as cs
+    cases = cs.tlc_cases(v, "intended/StmtLayoutQ.cfg")
+    rnd.shuffle(cases)
+    keep = [c for c in cases if c["s"]["context"] in ("aftermultibyte", "tabindent", "afterstring") or c["s"]["layout"] in ("crlf", "tabs")
+            or c["s"]["msg"] in ("unicodefirst", "unicode")]
+    cases = keep[:(60000 if tier == "thorough" else 12000)] + cases[:(40000 if tier == "thorough" else 6000)]
+
+    def relabel(prop, r, text):
+        if r is not None and ("reported location" in text or "missing-reports" in text):
+            import re as _re
+            m = _re.search(r"missing-reports=(\d+) unusable-reports=\d+ insertions=\[(.*)\]", text)
+            if "reported location" in text or (m and int(m.group(1)) != (m.group(2).count("(") if m.group(2) else 0)):
+                return "C05"
+        return prop
+    cs.run_cases(binary, cases, v, {"C05"}, "layout", relabel=relabel)
     v.cov["rule"] = ("check, edit, check on model pre-states (seeded sample in quick tier) rendered with LF/CRLF and multi-byte "
                      "prelude in both styles; reported (file, line) mapped to statements, reported (file, line, column) compared "
                      "with the insertion offsets of the following edit converted by an independent line/column counter")
@@ -296,7 +313,23 @@ def c06(tier):
                                          "sig": {"mode": "fixpoint", "fault": "none", "structured": bool(sc.kw["structured"])}})
         v.evaluated((json.dumps(sc.tree, sort_keys=True), str(sc.kw["lock"]), sc.kw["structured"], sc.kw["use_cache"]))
         v.sample({"tree": sc.tree, "structured": sc.kw["structured"], "exits": res["exits"]})
+    # 10-digit IDs: the tool must read back its own long tokens (window of 1000 IDs below u32::MAX, no exhaustion)
+    hi = rl.bl.U32MAX - 1000
+    for structured in (False, True):
+        for lock in (None, 20):
+            sc = rl.Scenario("ten-digit", {"f1.rs": [S(11), S(12, ref=hi + 3), S(13), S(14)], "f2.rs": [S(21), S(22, ref=hi + 4), S(23)]},
+                             lock=lock, base=hi, maxid=1000, structured=structured)
+            rl.planned_runs(binary, sc, [[("check", ""), ("edit", ""), ("check", ""), ("edit", ""), ("lock", None)]], batch, v,
+                            follow="readback", sigbase={"embedding": "high"})
     batch.judge(v, {"C06"})
+    # statement level: every shape of statement must be recognised after its own edit (second check passes, second edit
+    # changes nothing)
+    import checks_stmt as cs
+    cases = cs.tlc_cases(v, "intended/StmtKv.cfg") + cs.tlc_cases(v, "intended/StmtLayoutQ.cfg")
+    if tier != "thorough":
+        rnd.shuffle(cases)
+        cases = cases[:30000]
+    cs.run_cases(binary, cases, v, {"C06"}, "roundtrip")
     v.cov["rule"] = ("check, edit, check, edit on model pre-states in both styles (second edit must change no byte and leave the lock "
                      "value), then lock removed + statement added + edit: the new ID must exceed every ID written before (read-back)")
     return v.finish()
